@@ -178,8 +178,8 @@ func (a *A) ruleCommaAtDepthZero() int {
 			}, true)
 			if !okDepth {
 				succ := b.Succs[0]
-				if i2, ok := succ.Instrs[len(succ.Instrs)-1].(*ssa.If); ok && len(succ.Instrs) <= 3 {
-					if d, ok := i2.Cond.(*ssa.BinOp); ok && (d.Op == token.EQL || d.Op == token.LEQ) && isDepth(d.X) && isZeroConst(d.Y) {
+				if cond := effectiveBranch(succ); cond != nil && len(succ.Instrs) <= 3 {
+					if d, ok := cond.(*ssa.BinOp); ok && (d.Op == token.EQL || d.Op == token.LEQ) && isDepth(d.X) && isZeroConst(d.Y) {
 						okDepth = true
 					}
 				}
